@@ -6,6 +6,8 @@ three-way table keyed on the newlines option and the census; (census) every line
 disabled regions is counted once for the census.
 Not decided: the commutation equations between two runs.
 """
+import re
+
 from ..facts import expr_str, walk, global_path, in_macro
 from .common_io import UNC
 
@@ -283,8 +285,82 @@ def rule_region_uncounted(ctx, rid="region-uncounted"):
     r.floor(3)
 
 
+def rule_census_classes(ctx):
+    """which counter a line break feeds: LF only where the break was shown not to start with CR, CRLF only for CR followed by
+    LF, CR only for CR not followed by LF - otherwise the '\n' of a CRLF pair is counted as LF and `newlines = auto` picks the
+    wrong terminator for CRLF files"""
+    db = ctx.db
+    r = ctx.rule("census-classes", "every increment of the LF counter is on the false side of a test for '\\r' (or in the `case '\\n'` arm of a "
+                 "switch that has a `case '\\r'` arm consuming the following '\\n'); every CRLF increment on the true side of a '\\r' test and of a "
+                 "test that the next character is '\\n'; every CR increment on the true side of '\\r' and the false side of the '\\n' test")
+    n = 0
+    for f in db.funcs.values():
+        if f.file != TOK:
+            continue
+        ps = f.parents()
+        cnt = {}
+        for x in f.nodes.values():
+            if x["k"] != "mem" or x.get("n") != "le_counts":
+                continue
+            chain = []
+            top = x["i"]
+            while ps.get(top) and len(chain) < 2:
+                top = ps[top][0]
+                chain.append(f.nodes[top])
+            if not (len(chain) == 2 and chain[0]["k"] == "idx" and chain[1]["k"] == "un" and chain[1].get("op") == "++"):
+                continue
+            which = expr_str(f, chain[0]["a"][1])
+            kind = "CRLF" if which.endswith("LE_CRLF") else ("CR" if which.endswith("LE_CR") else ("LF" if which.endswith("LE_LF") else None))
+            if kind is None:
+                continue
+            n += 1
+            r.seen()
+            b = f.nblock[x["i"]]
+            cs = [(expr_str(f, cn), pol) for cn, pol in f.guard_conds(b) if cn is not None]
+            cr_t = any(pol is True and re.search(r"== '\\r'$", c) and "||" not in c for c, pol in cs) or any(isinstance(pol, tuple) and pol[0] == "case" and "'\\r'" in str(pol[1]) and pol[2] is not False for c, pol in cs)
+            cr_f = any(pol is False and re.search(r"== '\\r'$", c) and "||" not in c for c, pol in cs)
+            lf_next_t = any(pol is True and (c.endswith("peek() == '\\n'") or c.endswith("expect('\\n')")) for c, pol in cs)
+            lf_next_f = any(pol is False and (c.endswith("peek() == '\\n'") or c.endswith("expect('\\n')")) for c, pol in cs)
+            lab = f.blocks[b].get("lab", {}).get("case", ())
+            in_case = lambda ch: any(str(c) in (ch, str(ord(eval(ch)))) for c in lab)
+            cnt[kind] = cnt.get(kind, 0) + 1
+            inst = "%s/%s%s" % (f.qn, kind, "" if cnt[kind] == 1 else "#%d" % cnt[kind])
+            if kind == "LF":
+                ok = cr_f or _switch_arm(f, b, "\n", "\r")
+                r.check(ok, inst, db.loc(f, x), "the LF counter is incremented without the break having been shown not to begin with CR (facts: %s): "
+                        "the LF of a CRLF pair is counted as LF" % [c for c in cs if "'\\r'" in c[0] or "'\\n'" in c[0]])
+            elif kind == "CRLF":
+                ok = (cr_t or _switch_arm(f, b, "\r", None)) and lf_next_t
+                r.check(ok, inst, db.loc(f, x), "the CRLF counter is incremented outside (CR seen, next character is LF): %s" % cs[-4:])
+            else:
+                ok = (cr_t or _switch_arm(f, b, "\r", None)) and lf_next_f
+                r.check(ok, inst, db.loc(f, x), "the CR counter is incremented outside (CR seen, next character is not LF): %s" % cs[-4:])
+    r.require(n >= 18, "only %d census increments found" % n)
+    r.floor(18)
+
+
+def _switch_arm(f, b, ch, sibling):
+    """block b lies in the `case <ch>` arm of a switch (guard fact of kind case) whose switch also has a `case <sibling>` arm"""
+    want = str(ord(ch))
+    for cn, pol in f.guard_conds(b):
+        if isinstance(pol, tuple) and pol[0] == "case":
+            labels = [str(x) for x in pol[1]]
+            if any(l in (want, repr(ch), "'%s'" % ch.encode("unicode_escape").decode()) for l in labels):
+                if sibling is None:
+                    return True
+                sw = f.nblock.get(cn)
+                allc = set()
+                if sw is not None:
+                    for s2 in f.succ[sw]:
+                        if s2 >= 0:
+                            allc |= set(str(x) for x in f.blocks[s2].get("lab", {}).get("case", ()))
+                sib = str(ord(sibling))
+                return any(l in (sib, "'%s'" % sibling.encode("unicode_escape").decode()) for l in allc) or sw is None
+    return False
+
+
 def RULES_for(tier):
-    return [rule_single_writer, rule_newline_table, rule_census, rule_census_monotone, rule_region_uncounted] + ([rule_cr_lf_symmetry] if tier == "thorough" else [])
+    return [rule_single_writer, rule_newline_table, rule_census, rule_census_monotone, rule_census_classes, rule_region_uncounted] + ([rule_cr_lf_symmetry] if tier == "thorough" else [])
 
 
-RULES = [rule_single_writer, rule_newline_table, rule_census, rule_census_monotone, rule_region_uncounted]
+RULES = [rule_single_writer, rule_newline_table, rule_census, rule_census_monotone, rule_census_classes, rule_region_uncounted]
